@@ -17,9 +17,11 @@
    The clause "Unmarshal(x || y) = Merge(Unmarshal x, Unmarshal y) for all decodable x, y" of the
    property text is refuted by the faithful model (C07_concat_eq_merge_refuted_FA6: an explicit
    zero of an implicit-presence field in y clears the field on the wire, Merge cannot); it holds
-   in the form "decode (x || y) = decode y into (decode x)" -- proved here for x the encoding of a
-   valid message (C07_decode_app_partial); for arbitrary decodable x it is checked on the
-   implementation only (harness op `into` and the P predicate). *)
+   in the form "decode (x || y) = decode y into (decode x)" for EVERY pair of byte strings that
+   decode (C07_decode_app: no validity hypothesis, both decoder paths, any schema), and as
+   "Unmarshal(x || Marshal(b)) = Merge(Unmarshal(x), b)" for every decodable x and canonical b
+   (C07_concat_eq_merge: the exclusion of FA6 in the form "y is an encoder output"; the weaker
+   exclusion "y merely has no zero-valued implicit-presence occurrence" is not proved). *)
 From Coq Require Import List NArith ZArith.
 From PB Require Import Base.PBytes Wire.WireModel.
 From PB Require Import Msg.MsgSchema Msg.MsgValue Msg.MsgEnc Msg.MsgDec Msg.MsgValid Msg.MsgExample Msg.MergeModel Msg.MergeP.
@@ -66,6 +68,25 @@ Theorem C07_decode_app_partial :
 Proof. exact msg_decode_app_encoded. Qed.
 Print Assumptions C07_decode_app_partial.
 
+(* decode (x || y) = decode y into (decode x), for all byte strings x, y that decode *)
+Theorem C07_decode_app :
+  forall (slow : bool) (S : schema) (limit tid : nat) (x y : list byte) (vx v : value),
+    msg_decode slow S limit tid x = DOk vx ->
+    msg_decode_into slow S limit tid y vx = DOk v ->
+    msg_decode slow S limit tid (x ++ y) = DOk v.
+Proof. exact msg_decode_app. Qed.
+Print Assumptions C07_decode_app.
+
+(* Unmarshal(x || Marshal(b)) = Merge(Unmarshal(x), b): x ANY decodable byte string *)
+Theorem C07_concat_eq_merge :
+  forall (slow : bool) (S : schema) (limit tid : nat) (x : list byte) (vx b : value),
+    msg_decode slow S limit tid x = DOk vx ->
+    msg_valid slow S limit tid b = true ->
+    exists m, msg_merge S limit tid vx b = Some m /\
+              msg_decode slow S limit tid (x ++ msg_encode S tid b) = DOk m.
+Proof. exact msg_concat_eq_merge. Qed.
+Print Assumptions C07_concat_eq_merge.
+
 Theorem C07_concat_eq_merge_refuted_FA6 :
   exists S x y vx vy vxy m,
     msg_decode false S 100 0 x = DOk vx /\ msg_decode false S 100 0 y = DOk vy /\
@@ -77,6 +98,11 @@ Print Assumptions C07_concat_eq_merge_refuted_FA6.
    list, oneof member, extension, unknown fields) is valid, and merging it with itself computes *)
 Example C07_example_valid : msg_valid false ex_schema 3 0 ex_msg = true.
 Proof. vm_compute. reflexivity. Qed.
+(* non-vacuity of C07_decode_app / C07_concat_eq_merge: a non-canonical x (the FA6 bytes) *)
+Example C07_example_decode_app :
+  exists vx, msg_decode false ex_fa6 100 0 [n2b 8; n2b 3; n2b 8; n2b 0] = DOk vx /\
+             msg_decode_into false ex_fa6 100 0 [n2b 8; n2b 5] vx = DOk (VMsg [(1, [VS (SZ 5)])] []).
+Proof. eexists. split; vm_compute; reflexivity. Qed.
 Example C07_example_merge :
   exists m, msg_merge ex_schema 3 0 ex_msg ex_msg = Some m /\ m <> ex_msg /\
             msg_decode false ex_schema 3 0 (msg_encode ex_schema 0 ex_msg ++ msg_encode ex_schema 0 ex_msg) = DOk m.
